@@ -286,6 +286,8 @@ class AstToSqlVisitor(visitor.NodeVisitor):
                 res = res + f" || '{suffix}'"
         else:
             res = str(arg.val).replace("%", "%%").replace("_", "__")  # type: ignore
+            # Replace single quotes with double single-quotes acc SQL standard:
+            res = res.replace("'", "''")
             res = "'" + prefix + res + suffix + "'"
         return res
 
